@@ -51,6 +51,14 @@ theorem exchangePub_total (n : Nat) (self : Elem) (bs : List (List Elem)) :
     (exchangePub Cfg.current n self bs).isPanic = false := by
   rw [guards_present]; exact Handlers.exchangePub_total n self bs
 
+/-- what exchangePub hands to the next stage has exactly `n` keys (the hypothesis of the next theorem) -/
+theorem exchangePub_hands_over_n (n : Nat) (self : Elem) (bs : List (List Elem)) (i : String)
+    (h : exchangePub Cfg.current n self bs = .ok i) : i = toString n := by
+  rw [guards_present] at h
+  cases self with
+  | other => simp [exchangePub] at h
+  | good j => exact xpubLoop_count n bs 1 i h
+
 /-- **genDistKeyGenerator → NewDistKeyGenerator → NewDealer** on the `n` public-key messages
 `exchangePub` hands over: any index (also ≥ n), missing / identity / undecodable key, duplicates. -/
 theorem genDistKeyGenerator_total (n : Nat) (pubs : List PubMsg) (hlen : pubs.length = n) :
